@@ -345,12 +345,38 @@ func (in *Interp) symFormatInt(t *Term, w int, signed bool, pad int) []value {
 		out = append(out, uint64('0'))
 		pad--
 	}
+	// The digits are fresh byte variables constrained to '0'..'9' (no leading
+	// zero), not udiv/urem terms: what the code under test does with the text
+	// (searching for separators, slicing) then needs no arithmetic, and
+	// parsing the very same digits back (symParseUint) returns v by
+	// provenance — strconv's print/parse round trip is trusted (and compared
+	// with native execution in concrete mode), not re-proved.  The digits are
+	// an over-approximation of the real text; a counterexample that depended
+	// on them would not replay natively.
 	digits := make([]value, nd)
+	rec := &decimalRec{v: v64}
+	in.decCtr++
 	for i := 0; i < nd; i++ {
-		d := mkBin("bvurem", mkBin("bvudiv", v64, mkBV(pow10u(nd-1-i), 64)), mkBV(10, 64))
-		digits[i] = fromTerm(mkBin("bvadd", mkExtract(7, 0, d), mkBV('0', 8)))
+		b := mkVar(fmt.Sprintf("dec.%d.%d", in.decCtr, i), bvSort(8))
+		lo := uint64('0')
+		if i == 0 && nd > 1 {
+			lo = '1'
+		}
+		in.addPC(mkCmp("bvule", mkBV(lo, 8), b))
+		in.addPC(mkCmp("bvule", b, mkBV('9', 8)))
+		digits[i] = b
+		rec.digits = append(rec.digits, b)
 	}
+	if in.decimals == nil {
+		in.decimals = map[*Term]*decimalRec{}
+	}
+	in.decimals[rec.digits[0]] = rec
 	return append(out, digits...)
+}
+
+type decimalRec struct {
+	digits []*Term
+	v      *Term // 64-bit value the digits print
 }
 
 func pow10u(n int) uint64 {
@@ -369,6 +395,37 @@ func (in *Interp) symParseUint(s value, bitSize int) (*Term, *Term) {
 	ok := tTrue
 	if n == 0 {
 		return val, tFalse
+	}
+	if n > 20+20 {
+		return val, tFalse
+	}
+	// digits that were produced by symFormatInt parse back to the value printed
+	{
+		k := 0
+		for k < n-1 {
+			if u, isC := strByte(s, k).(uint64); isC && u == '0' {
+				k++
+				continue
+			}
+			break
+		}
+		if first, isT := strByte(s, k).(*Term); isT {
+			if rec := in.decimals[first]; rec != nil && len(rec.digits) == n-k {
+				same := true
+				for i, d := range rec.digits {
+					if strByte(s, k+i) != value(d) {
+						same = false
+					}
+				}
+				if same {
+					okr := tTrue
+					if bitSize < 64 && bitSize > 0 {
+						okr = mkCmp("bvule", rec.v, mkBV(maskW(bitSize), 64))
+					}
+					return rec.v, okr
+				}
+			}
+		}
 	}
 	if n > 20 {
 		return val, tFalse
